@@ -1,3 +1,4 @@
+import Oidc.Proofs.CodeSession
 import Oidc.Proofs.CodeHandler
 import Oidc.Shapes
 import Oidc.Proofs.World
@@ -111,5 +112,17 @@ theorem code_isUserAuthenticated (c : Cfg) (e : Env) (v : View) (t : Go.Inst) (s
                  x.trunc = (e.tok sess.GetAccessToken).exp) :
     Code.TraefikOidc_isUserAuthenticated (e.now * 1000000000) t sess = classify c e v :=
   isUserAuthenticated_refines c e v t sess hA hR hT hG hP hV hE
+
+open Oidc.Generated Oidc.CodeRefine in
+/-- session.go `SetAuthenticated` / `GetAuthenticated` as translated: a session marked authenticated at instant `t0` (nanoseconds)
+    answers "authenticated" at every instant up to 24 hours minus a second later and "not authenticated" from 24 hours and a second
+    later on (the creation time is kept in whole seconds; the exact boundary is `GetAuthenticated_after_set_true`); marking it
+    unauthenticated, or a session without creation time, answers "not authenticated" at any time.  The only other input is the
+    random session id, which `SetAuthenticated(true)` must be able to draw. -/
+theorem code_authenticated_window (sd : Go.SessData) (t0 t : Int) (h0 : 0 ≤ t0) (hrand : (sd.generateSecureRandomString 32).2 = none) :
+    (t0 ≤ t → t - t0 ≤ 24 * Go.Hour - Go.Second → Code.SessionData_GetAuthenticated t (Code.SessionData_SetAuthenticated t0 sd true).2 = true) ∧
+    (24 * Go.Hour + Go.Second ≤ t - t0 → Code.SessionData_GetAuthenticated t (Code.SessionData_SetAuthenticated t0 sd true).2 = false) ∧
+    Code.SessionData_GetAuthenticated t (Code.SessionData_SetAuthenticated t0 sd false).2 = false :=
+  ⟨(GetAuthenticated_window sd t0 t h0 hrand).1, (GetAuthenticated_window sd t0 t h0 hrand).2, (GetAuthenticated_after_set_false sd t0 t).2⟩
 
 end Oidc.Props.C04
